@@ -91,6 +91,13 @@ type supervisor struct {
 	// to an immutable slice) so they persist across Open/Close cycles while the supervisor is
 	// recreated per Open. The per-Open supervisor only reads this pointer.
 	handlers *atomic.Pointer[[]StateChangeHandler]
+
+	// deselectPending counts evSelectLost events that CommitSelectLost has published (its CAS done or
+	// about to be attempted) and step() has not yet consumed. While it is non-zero a queued
+	// evSelectAccepted is STALE with respect to that newer Deselect commit: step() must not re-store
+	// Selected for it (a peer that pipelines Select.req + Deselect.req would otherwise end up
+	// Selected on our side after being told the deselect succeeded).
+	deselectPending atomic.Int32
 }
 
 // newSupervisorWithEventsCap builds a supervisor with an explicit events-queue capacity
@@ -225,11 +232,17 @@ func (s *supervisor) CommitSelected() (committed bool) {
 // tolerating the pre-committed state via the evSelectLost-from-NotSelected table entry). It returns
 // whether THIS call performed the commit; a call when not Selected is a no-op returning false.
 func (s *supervisor) CommitSelectLost() (committed bool) {
+	// Announce the pending evSelectLost BEFORE the CAS so step() can never observe the committed
+	// NotSelected without also observing that a select-lost event is on its way.
+	s.deselectPending.Add(1)
+
 	if s.state.CompareAndSwap(uint32(SelectedState), uint32(NotSelectedState)) {
 		s.inject(evSelectLost)
 
 		return true
 	}
+
+	s.deselectPending.Add(-1)
 
 	return false
 }
@@ -274,6 +287,16 @@ func (s *supervisor) step(ev fsmEvent) {
 	// leaving State() misreporting and suppressing the terminal NotConnected. requestClose is only
 	// ever terminal (Close / failed-Open rollback, both under lifeMu), so latching cannot drop a
 	// legitimate later transition — the generation is ending.
+	if ev == evSelectLost {
+		// Consume the announcement made by CommitSelectLost (never below zero: a raw evSelectLost
+		// injected without a commit has none).
+		for n := s.deselectPending.Load(); n > 0; n = s.deselectPending.Load() {
+			if s.deselectPending.CompareAndSwap(n, n-1) {
+				break
+			}
+		}
+	}
+
 	if s.closed {
 		return
 	}
@@ -308,11 +331,18 @@ func (s *supervisor) step(ev fsmEvent) {
 			// stale T7 disconnect; the session stays Selected and its evSelectAccepted fires the
 			// entering-Selected reaction. This makes "never torn down by a stale T7" hold BY
 			// CONSTRUCTION, with no TOCTOU.
-			if ev == evT7Timeout {
+			switch {
+			case ev == evT7Timeout:
 				if !s.state.CompareAndSwap(uint32(cur), uint32(next)) {
 					return // concurrent commit changed state; the T7 disconnect is stale — abandon it
 				}
-			} else {
+			case ev == evSelectAccepted && s.deselectPending.Load() > 0:
+				// This Select was already published by CommitSelected's CAS, and a LATER CommitSelectLost
+				// (Select.req + Deselect.req pipelined by the peer) has since moved the state back to
+				// NotSelected; its evSelectLost is still queued behind this event. Storing Selected now
+				// would undo that newer commit, so only the deduped reaction below runs (handlers still
+				// observe the brief Selected dwell, in order) and the state is left as committed.
+			default:
 				s.state.Store(uint32(next))
 			}
 		}
